@@ -573,4 +573,9 @@ func init() {
 		Variant{Name: "benign: NodeMeta checks the logger first", Property: "C09", File: shm, Benign: true,
 			Old: "\tif sd.manager == nil || sd.manager.memberlistConfig == nil {\n\t\treturn nil\n\t}\n\t// Copy shard map under read lock", New: "\tif sd.manager == nil {\n\t\treturn nil\n\t}\n\tif sd.manager.memberlistConfig == nil {\n\t\treturn nil\n\t}\n\t// Copy shard map under read lock"},
 	)
+	// ---- benign multi-hunk refactorings kept as patches under /verif/seeded-benign
+	addVariants(
+		Variant{Name: "benign: admin allow-list test factored into a helper (the repaired form of seed C15-d)", Property: "C15", File: "seeded-benign/C15-helper-extraction.diff", Benign: true,
+			Patch: "seeded-benign/C15-helper-extraction.diff"},
+	)
 }
